@@ -175,25 +175,124 @@ func (w *c26Watcher) ResultChan() <-chan api.WatchEvent {
 }
 func (w *c26Watcher) HasTerminated() bool { return w.stopped }
 
-// c26Proc is the UpdateProcessor of resource type #1: BGPPeer(name)=v  ->  GlobalFelixConfig(name)="conv:"+v;
-// the value "E" cannot be converted (treated as a delete + parse error, as the interface documents).
+// c26Proc is the UpdateProcessor of resource type #1. It is a STATEFUL converter: a line-by-line port of
+// updateprocessors.conflictResolvingCache (the real processor behind IPPool, HostEndpoint, ...; it cannot be
+// imported here because that package imports watchersyncer) with the converter
+//     BGPPeer(name)=v   ->   GlobalFelixConfig("p-"+v) = "conv:"+name        (v == "E": conversion error)
+// i.e. like an IP pool's CIDR the v1 key comes from the VALUE, several v3 resources can map to one v1 key, the
+// alphabetically lowest name wins, and the private cache must be cleared by OnSyncerStarting before a re-list.
 type c26Proc struct {
-	starts int
+	starts              int
+	kvpsByName          map[string]*model.KVPair
+	orderedNamesByV1Key map[string][]string
 }
 
-func (p *c26Proc) OnSyncerStarting() { p.starts++ }
-func (p *c26Proc) Process(kvp *model.KVPair) ([]*model.KVPair, error) {
+func newC26Proc() *c26Proc {
+	return &c26Proc{kvpsByName: map[string]*model.KVPair{}, orderedNamesByV1Key: map[string][]string{}}
+}
+
+func (c *c26Proc) OnSyncerStarting() {
+	c.starts++
+	c.kvpsByName = map[string]*model.KVPair{}
+	c.orderedNamesByV1Key = map[string][]string{}
+}
+
+func (c *c26Proc) convert(kvp *model.KVPair) (*model.KVPair, error) {
 	rk := kvp.Key.(model.ResourceKey)
-	out := &model.KVPair{Key: model.GlobalConfigKey{Name: rk.Name}, Revision: kvp.Revision}
-	if kvp.Value == nil {
-		return []*model.KVPair{out}, nil
-	}
 	v := kvp.Value.(string)
 	if v == "E" {
-		return []*model.KVPair{out}, cerrors.ErrorParsingDatastoreEntry{RawKey: rk.Name, RawValue: v, Err: errors.New("bad value")}
+		return nil, cerrors.ErrorParsingDatastoreEntry{RawKey: rk.Name, RawValue: v, Err: errors.New("bad value")}
 	}
-	out.Value = "conv:" + v
-	return []*model.KVPair{out}, nil
+	return &model.KVPair{Key: model.GlobalConfigKey{Name: "p-" + v}, Value: "conv:" + rk.Name, Revision: kvp.Revision}, nil
+}
+
+func (c *c26Proc) Process(kvp *model.KVPair) ([]*model.KVPair, error) {
+	rk, ok := kvp.Key.(model.ResourceKey)
+	if !ok || rk.Kind != c26Kinds[1] {
+		return nil, fmt.Errorf("incorrect key type")
+	}
+	name := rk.Name
+	if kvp.Value == nil {
+		return c.delete(name)
+	}
+	kvp, err := c.convert(kvp)
+	if err != nil {
+		if kvp := c.kvpsByName[name]; kvp != nil {
+			res, _ := c.delete(name)
+			return res, err
+		}
+		return nil, err
+	}
+	v1Key, _ := model.KeyToDefaultPath(kvp.Key)
+	var response []*model.KVPair
+	if existing := c.kvpsByName[name]; existing != nil {
+		oldV1Key, _ := model.KeyToDefaultPath(existing.Key)
+		if oldV1Key != v1Key {
+			response, err = c.delete(name)
+			if err != nil {
+				return nil, err
+			}
+		}
+	}
+	cns := c.orderedNamesByV1Key[v1Key]
+	inList := false
+	for _, n := range cns {
+		inList = inList || n == name
+	}
+	if !inList {
+		cns = append(cns, name)
+		sort.Strings(cns)
+	}
+	c.orderedNamesByV1Key[v1Key] = cns
+	c.kvpsByName[name] = kvp
+	if cns[0] == name {
+		response = append(response, kvp)
+	}
+	return response, nil
+}
+
+func (c *c26Proc) delete(name string) ([]*model.KVPair, error) {
+	kvp := c.kvpsByName[name]
+	if kvp == nil {
+		return nil, fmt.Errorf("delete called for unknown resource: %s", name)
+	}
+	v1Key, _ := model.KeyToDefaultPath(kvp.Key)
+	cns := c.orderedNamesByV1Key[v1Key]
+	var response []*model.KVPair
+	if cns[0] == name {
+		if len(cns) == 1 {
+			response = []*model.KVPair{{Key: kvp.Key}}
+		} else {
+			response = []*model.KVPair{c.kvpsByName[cns[1]]}
+		}
+	}
+	delete(c.kvpsByName, name)
+	if len(cns) == 1 {
+		delete(c.orderedNamesByV1Key, v1Key)
+	} else {
+		var newCns []string
+		for _, cn := range cns {
+			if cn != name {
+				newCns = append(newCns, cn)
+			}
+		}
+		c.orderedNamesByV1Key[v1Key] = newCns
+	}
+	return response, nil
+}
+
+func (c *c26Proc) render() string {
+	var ks []string
+	for n, kvp := range c.kvpsByName {
+		ks = append(ks, n+">"+kvp.Key.String()+"@"+kvp.Revision)
+	}
+	sort.Strings(ks)
+	var vs []string
+	for k, ns := range c.orderedNamesByV1Key {
+		vs = append(vs, k[strings.LastIndex(k, "/")+1:]+":"+strings.Join(ns, "+"))
+	}
+	sort.Strings(vs)
+	return fmt.Sprint(ks, vs)
 }
 
 // ---- sink ----
@@ -281,7 +380,7 @@ func c26New(p c26Params) *c26Inst {
 	s.panics = make(chan string)
 	s.ans = [2]chan c26Reply{make(chan c26Reply), make(chan c26Reply)}
 	s.sink = &c26Sink{st: s, view: map[string]string{}}
-	s.proc = &c26Proc{}
+	s.proc = newC26Proc()
 	// ground truth: IPPool(a)=x@1, BGPPeer(c)=x@2
 	s.cur = [2]map[string]c26Ent{{"a": {"x", 1}}, {"c": {"x", 2}}}
 	s.log = []c26Rec{{1, 0, "a", "x", "", api.WatchAdded}, {2, 1, "c", "x", "", api.WatchAdded}}
@@ -638,6 +737,7 @@ func c26Enabled(s *c26Inst) []c26Ev {
 		} else {
 			mut(1, "c", "x", "y")
 		}
+		mut(1, "d", "x", "y") // a second resource that can convert to the same v1 key as c
 	}
 	return evs
 }
@@ -690,9 +790,15 @@ func (s *c26Inst) expected() map[string]string {
 	for k, e := range s.cur[0] {
 		m[c26RKey(0, k).String()] = e.val
 	}
+	// type #1 after conversion: the v1 key comes from the value; of several resources with the same value the
+	// alphabetically lowest name is the one that is synced
 	for k, e := range s.cur[1] {
-		if e.val != "E" {
-			m[model.GlobalConfigKey{Name: k}.String()] = "conv:" + e.val
+		if e.val == "E" {
+			continue
+		}
+		key := model.GlobalConfigKey{Name: "p-" + e.val}.String()
+		if cur, ok := m[key]; !ok || "conv:"+k < cur {
+			m[key] = "conv:" + k
 		}
 	}
 	return m
@@ -728,8 +834,8 @@ func (s *c26Inst) finishStep() {
 		}
 		b.WriteString("]")
 	}
-	fmt.Fprintf(&b, "|upd[%s]|ws%d%v|sink%s st%d%v%v%v%v|proc%d|bad%d", c26Updates(s.upd), s.ws.status, s.ws.cacheStatuses,
-		c26StrMap(s.sink.view), s.sink.status, s.sink.gotStatus, s.sink.everInSync, s.sink.syncFailed, s.sink.parseFail, min(s.proc.starts, 1), len(s.bad))
+	fmt.Fprintf(&b, "|upd[%s]|ws%d%v|sink%s st%d%v%v%v%v|proc%s|bad%d", c26Updates(s.upd), s.ws.status, s.ws.cacheStatuses,
+		c26StrMap(s.sink.view), s.sink.status, s.sink.gotStatus, s.sink.everInSync, s.sink.syncFailed, s.sink.parseFail, s.proc.render(), len(s.bad))
 	s.key = b.String()
 	used := (s.p.Devs - s.devLeft) + (s.p.Muts - s.mutLeft)
 	s.nontriv = used > 0 && (len(s.wcs[0].resources)+len(s.wcs[1].resources)+len(s.wcs[0].oldResources)+len(s.wcs[1].oldResources) > 0)
